@@ -700,7 +700,7 @@ class Interp:
             m = cls.sup.methods.get(n.a)
             self.frames[-1].line = n.line
             if m is None:
-                raise self.rt_error('RuntimeError', 'Undefined property %s on class %s.' % (n.a, cls.sup.name))
+                raise self.rt_error('PropertyError', 'Undefined property %s on class %s.' % (n.a, cls.sup.name))
             return LyMethod(this, m)
         if k == 'lambda':
             return LyClosure(n, env, 'lambda', cls=self.enclosing_class(env), kind='lambda',
@@ -825,7 +825,7 @@ class Interp:
             m = self.builtin_method(obj, name)
             if m is not None:
                 return LyMethod(obj, m)
-            raise self.rt_error('RuntimeError', 'Undefined property %s on class %s.' % (name, obj.cls.name))
+            raise self.rt_error('PropertyError', 'Undefined property %s on class %s.' % (name, obj.cls.name))
         if isinstance(obj, LyClass):
             m = obj.statics.get(name)
             if m is not None:
@@ -833,11 +833,11 @@ class Interp:
         if isinstance(obj, LyModule):
             if name in obj.exports:
                 return obj.exports[name]
-            raise self.rt_error('RuntimeError', 'Undefined property %s on module' % name)
+            raise self.rt_error('PropertyError', 'Undefined property %s on module' % name)
         m = self.builtin_method(obj, name)
         if m is not None:
             return LyMethod(obj, m)
-        raise self.rt_error('RuntimeError', 'Undefined property %s on class %s.' % (name, type_name(obj)))
+        raise self.rt_error('PropertyError', 'Undefined property %s on class %s.' % (name, type_name(obj)))
 
     def set_prop(self, obj, name, v):
         if isinstance(obj, LyInstance):
